@@ -179,6 +179,7 @@ type Exec struct {
 	symNa      map[string]string // heap symbol -> allocation bound when it was created
 	curBlock   int
 	headSt     map[int]*State // top frame: state at each loop head (current iteration)
+	accWant     map[string]accSpec      // allok("<target>", i) accumulators of the function under contract
 	resultWant  map[string]bool         // result("<target>@k", i) mentioned by the contract
 	callResults map[string]capturedCall // ... and the values the matching call returned
 	callCount  map[string]string // calls("<target>") counters of the function under contract: target -> private component
@@ -932,6 +933,13 @@ func (x *Exec) execBody(fr *frame, st0 *State, reach0 string) ([]sval, *State, s
 					nv := x.freshConst("calls_hv", "Int")
 					x.assume("", "(>= "+nv+" "+prev+")")
 					st.set(comp, nv)
+				}
+				// allok accumulators: once false, false for good
+				for _, a := range x.accWant {
+					prev := st.get(a.comp)
+					nv := x.freshConst("allok_hv", "Bool")
+					x.assume("", "(=> "+nv+" "+prev+")")
+					st.set(a.comp, nv)
 				}
 			}
 			for kk := 0; kk < k; kk++ {
